@@ -176,6 +176,12 @@ pub fn gen_case(r: &mut Rng, out: &mut String) {
         }
         writeln!(out, "jsize_hint j0").unwrap();
     }
+    if r.chance(1, 4) {
+        // the specialised fold / rfold / len of the treemap iterators (the iterator is consumed: last op on j0)
+        writeln!(out, "jlen j0").unwrap();
+        writeln!(out, "{} j0", if r.chance(1, 2) { "jfold" } else { "jrfold" }).unwrap();
+        return;
+    }
     if small && r.chance(1, 2) {
         writeln!(out, "jdrain_rev j0").unwrap();
     } else {
